@@ -719,8 +719,13 @@ class InterfaceClass(_InterfaceClassBase):
                 if '__classcell__' in attrs
                 else {}
             )
-            if '__adapt__' in needs_custom_class:
-                # We need to tell the C code to call this.
+            if (
+                '__adapt__' in needs_custom_class or
+                getattr(cls, '_CALL_CUSTOM_ADAPT', None)
+            ):
+                # We need to tell the C code to call this. The C code
+                # only looks in the type's own dict, so a flag
+                # inherited from the parent's custom class is repeated.
                 needs_custom_class['_CALL_CUSTOM_ADAPT'] = 1
 
             if issubclass(cls, _InterfaceClassWithCustomMethods):
